@@ -4,7 +4,7 @@ from props.common import run_with
 
 NEEDS_LEXER = False
 FUNCS = ["cfg_print_indent", "cfg_print_pff_indent", "cfg_opt_print_pff_indent", "cfg_indent", "cfg_opt_nprint_var", "cfg_opt_set_print_func", "cfg_set_print_filter_func",
-         "cfg_setopt (CFGT_SEC creation: no own filter)", "cfg_addtsec"]
+         "cfg_setopt (CFGT_SEC creation: no own filter)", "cfg_addtsec", "cfg_set_print_func (by name / path)"]
 
 
 def build_obs(tier, tables=None):
@@ -27,6 +27,17 @@ def build_obs(tier, tables=None):
     obs.append(Ob("print-simple-int", "print_step.c", ["-DHAS_ROOT=1", "-DHAS_INST1=0", "-DPFMASK=0", "-DINDENT0=0", "-DSIMPLE_I"], unwind=11, checks="none",
                   params={"root_has_filter": 1, "instance_has_own_filter": 0, "print_callback_mask": 0, "start_indent": 0, "simple_value_option": "i"}))
     obs.append(Ob("print-create-no-own-filter", "print_create.c", [], unwind=6, checks="none"))
+    # by-name registration of a print callback: installed on exactly the option the name / path addresses
+    # (shaped symbolic paths and the stepwise reference of C11's harness)
+    import copy
+    import props.C11 as C11
+    base = {o.key: o for o in C11.build_obs("thorough")}
+    for key in ["path-fn1-N", "path-fn1-NIN", "path-fn1-NEQIN", "path-fn1-NEqqqIN"] + (["path-fn1-NININ", "path-fn1-NEqeqIN"] if tier != "quick" else []):
+        o = copy.deepcopy(base[key])
+        o.key = "print-register-" + key[len("path-fn1-"):]
+        o.defs = ["-DFN=5" if d == "-DFN=1" else d for d in o.defs]
+        o.params = dict(o.params, entry_point="cfg_set_print_func")
+        obs.append(o)
     return obs
 
 
